@@ -3,7 +3,8 @@
 ops:
   analyze {src}: CPython ast.parse + tokenize + exec against stub pydantic; returns structure facts
 """
-import ast, io, json, sys, tokenize, os, traceback
+import ast
+import re, io, json, sys, tokenize, os, traceback
 
 sys.path.insert(0, os.path.join(os.path.dirname(os.path.abspath(__file__)), "stubs"))
 
@@ -56,9 +57,20 @@ def names_in(node):
     return out
 
 
-def line_offsets(src):
+_UNIVERSAL = re.compile(r"[^\r\n]*(?:\r\n|\r|\n)|[^\r\n]+$")
+_LF_ONLY = re.compile(r"[^\n]*\n|[^\n]+$")
+
+
+def split_lines(src, universal):
+    """Lines with their terminators. `universal`: the way CPython's parser counts lines for str input (LF, CRLF and a
+    lone CR each end a line); otherwise the way io.StringIO.readline (and so the tokenize module) does: LF only.
+    str.splitlines would also split at FF, VT, NEL, LS, PS ..., which neither of them does."""
+    return (_UNIVERSAL if universal else _LF_ONLY).findall(src)
+
+
+def line_offsets(lines):
     offs = [0]
-    for line in src.splitlines(True):
+    for line in lines:
         offs.append(offs[-1] + len(line))
     return offs
 
@@ -87,15 +99,16 @@ def analyze(src, do_exec=True):
         return {"ok": False, "syntax_error": {"msg": str(e.msg), "line": e.lineno or 0, "text": (e.text or "")[:120]}}
     except ValueError as e:
         return {"ok": False, "syntax_error": {"msg": "ValueError: " + str(e), "line": 0, "text": ""}}
-    offs = line_offsets(src)
-    src_lines = src.splitlines(True)
+    src_lines = split_lines(src, True)
+    offs = line_offsets(src_lines)
+    tok_offs = line_offsets(split_lines(src, False))
     # tokens: comment and string spans (char offsets); tokenize works on str input -> col = char index
     spans = []
     try:
         for tok in tokenize.generate_tokens(io.StringIO(src).readline):
             if tok.type in (tokenize.COMMENT, tokenize.STRING) or (hasattr(tokenize, "FSTRING_START") and tok.type in (getattr(tokenize, "FSTRING_START"), getattr(tokenize, "FSTRING_MIDDLE"), getattr(tokenize, "FSTRING_END"))):
-                s = offs[tok.start[0] - 1] + tok.start[1]
-                e = offs[tok.end[0] - 1] + tok.end[1]
+                s = tok_offs[min(tok.start[0] - 1, len(tok_offs) - 1)] + tok.start[1]
+                e = tok_offs[min(tok.end[0] - 1, len(tok_offs) - 1)] + tok.end[1]
                 spans.append({"t": "comment" if tok.type == tokenize.COMMENT else "string", "s": s, "e": e})
     except (tokenize.TokenError, IndentationError) as e:
         res["tokenize_error"] = str(e)
